@@ -8,7 +8,7 @@
       nn                 N.of_nat (complex indices are stored as N in the classes) *)
 From Coq Require Import List NArith ZArith.
 Require mathcomp.algebra.mxalgebra mathcomp.algebra.matrix mathcomp.algebra.rat.
-Require SK.lib.RankBridge SK.proof.C19_Rank.
+Require SK.lib.RankBridge SK.proof.C19_Rank SK.proof.C19_ClassRank.
 From SK Require Import lib.Reach model.C17_Model model.C19_Model proof.C17_Proof proof.C19_Proof proof.C19_Complexes proof.C19_Linkage.
 Import ListNotations.
 
@@ -157,6 +157,29 @@ Theorem C19_class_deficiency : forall (net : list rxn) (iso : list str) (rc : rc
      - Z.of_nat (@mathcomp.algebra.mxalgebra.mxrank F (length D) m (SK.lib.RankBridge.toM (length D) m D)))%Z.
 Proof. exact SK.proof.C19_Rank.class_deficiency_exact. Qed.
 Print Assumptions C19_class_deficiency.
+
+(** (6c) for EVERY network and every linkage class: exact rank of the class's difference vectors + 1 <= size of the class
+         (the class is connected: same argument as (5a) with the vertices outside the class as singleton classes) ... *)
+Theorem C19_class_rank_bound : forall (net : list rxn) (iso : list str) (c : nat),
+  let cs := fst (complex_graph net iso) in
+  let arcs := snd (complex_graph net iso) in
+  let L := linkage_classes arcs (length cs) in
+  let m := length (species_order net iso) in
+  let D := class_diffs cs arcs (nth c L []) in
+  let F := mathcomp.algebra.rat.rat_fieldType in
+  c < length L ->
+  @mathcomp.algebra.mxalgebra.mxrank F (length D) m (SK.lib.RankBridge.toM (length D) m D) + 1 <= length (nth c L []).
+Proof. exact SK.proof.C19_ClassRank.class_rank_bound_le. Qed.
+Print Assumptions C19_class_rank_bound.
+
+(** (6d) ... hence every linkage-class deficiency is >= 0 (all ranks exact). *)
+Theorem C19_class_nonneg : forall (net : list rxn) (iso : list str) (rc : rcert) (ccs : list rcert) (c : nat),
+  certs_ok net iso rc ccs = true ->
+  let L := linkage_classes (snd (complex_graph net iso)) (length (fst (complex_graph net iso))) in
+  c < length L ->
+  (0 <= nth c (linkage_deficiencies L (map rc_r ccs)) 0%Z)%Z.
+Proof. exact SK.proof.C19_ClassRank.class_deficiency_nonneg. Qed.
+Print Assumptions C19_class_nonneg.
 
 (** (7) documentation of the repaired defect (/repo 0eb35ff): the walk over G.edges(r) only (out-arcs of the reaction node
         = product arcs) gives A + B -> C, C -> A + B three complexes, one of them the zero vector that is no side of any
